@@ -85,27 +85,27 @@ def bounds_section():
     return NL.join(rows)
 
 
-THOROUGH_LOG = """| property | thorough tier, seed 1 (background run on this machine) |
+THOROUGH_LOG = """| property | thorough tier, seed 1 (background runs on this machine; F = final code, R7 = code after seeding round 7, R4 = after round 4) |
 |---|---|
-| C01 | 400 704 cases, 315 371 distinct non-trivial, 225 s (+ atheris decoded-values campaign added later) |
-| C02 | 169 292 cases, 89 770 distinct non-trivial, 324 s (+ all three-cut chunkings and bulk cases added later) |
-| C03 | 400 704 cases, 346 077 distinct non-trivial, 198 s |
-| C04 | 320 000 cases, 192 182 distinct non-trivial, 153 s |
-| C05 | 7 043 028 cases (6.4 M of them atheris executions in 16 campaigns), 2 325 099 distinct non-trivial, 1127 s |
-| C06 | 320 000 cases, 232 769 distinct non-trivial, 425 s |
-| C07 | 1 155 889 cases, 746 201 distinct non-trivial, 132 s |
-| C08 | 480 000 histories, 334 864 distinct non-trivial, 1049 s |
-| C09 | 240 000 histories, 78 357 distinct non-trivial, 348 s |
-| C10 | 480 000 histories, 251 190 distinct non-trivial, 937 s |
-| C11 | 160 000 joint histories, 47 140 distinct non-trivial, 214 s |
-| C12 | 640 000 histories, 120 795 distinct non-trivial, 558 s |
-| C13 | 963 328 cases, 779 450 distinct non-trivial, 754 s |
-| C14 | 800 000 sentences, 276 182 distinct non-trivial, 533 s |
-| C15 | 10 898 548 cases (8 M atheris executions), 7 452 924 distinct non-trivial, 824 s |
-| C16 | 481 608 cases, 419 945 distinct non-trivial, 355 s |
-| C17 | 3 360 000 cases (2.4 M atheris executions), 826 182 distinct non-trivial, 685 s |
-| C18 | 662 089 families, 355 770 distinct non-trivial, 4378 s - found defect 19 (two buckets, one root cause), see §3 |
-| C19 | 240 032 cases, 174 097 distinct non-trivial, 824 s |"""
+| C01 | F: 7 269 166 cases (6.4 M atheris executions), 725 017 distinct non-trivial, 487 s |
+| C02 | F: 245 554 cases, 154 224 distinct non-trivial, 391 s (the run before it exited 2: three bulk shards killed - quadratic probes, repaired, see 6.3) |
+| C03 | F: 857 522 cases, 640 174 distinct non-trivial, 263 s |
+| C04 | F: 320 000 cases, 194 627 distinct non-trivial, 386 s |
+| C05 | R7: 7 052 920 cases (6.4 M of them atheris executions in 16 campaigns), 2 438 009 distinct non-trivial, 2540 s under load (R4: 1153 s) |
+| C06 | F: 320 000 cases, 234 879 distinct non-trivial, 893 s |
+| C07 | R4: 1 155 889 cases, 746 573 distinct non-trivial, 201 s |
+| C08 | F: 480 000 histories, 318 321 distinct non-trivial, 1468 s |
+| C09 | F: 249 600 histories, 110 894 distinct non-trivial, 1812 s (long-session part then reduced from 600 to 80 examples per shard) |
+| C10 | F: 736 000 histories, 373 364 distinct non-trivial, 2102 s |
+| C11 | F: 160 000 joint histories, 38 297 distinct non-trivial, 520 s |
+| C12 | R4: 640 000 histories, 120 971 distinct non-trivial, 1203 s |
+| C13 | R4: 963 328 cases, 779 450 distinct non-trivial, 1328 s |
+| C14 | F: 800 000 sentences, 274 523 distinct non-trivial, 1376 s |
+| C15 | R7: 10 719 860 cases (8 M atheris executions), 7 209 205 distinct non-trivial, 2597 s under load |
+| C16 | R4: 481 608 cases, 433 208 distinct non-trivial, 1063 s |
+| C17 | earlier: 3 360 000 cases (2.4 M atheris executions), 826 182 distinct non-trivial, 685 s |
+| C18 | earlier: 662 089 families, 355 770 distinct non-trivial, 4378 s - found defect 19 (two buckets, one root cause), see section 3; re-run after the repair: exit 0 |
+| C19 | F: 241 352 cases, 171 643 distinct non-trivial, 400 s |"""
 
 s = open(p).read()
 if "## 8. Bounds actually run" in s:
@@ -118,14 +118,18 @@ Quick tier, from the committed evidence files (written by the checks themselves,
 
 {bounds_section()}
 
-Thorough tier (every check was run once in the thorough tier during the build; all exited 0 except C18, whose two
-buckets were a genuine defect that was then repaired; thorough evidence is not committed because the evidence file of a
+Thorough tier (every check was run in the thorough tier several times during the build; the last run of each exited 0;
+the exceptions on the way were C18, whose two buckets were a genuine defect that was then repaired, and C02, a harness
+error (exit 2) that was repaired; the time budget did not allow a last run of every check on the very last commit - the
+first column says which code each number comes from; thorough evidence is not committed because the evidence file of a
 property is rewritten by every run and the committed one is the quick run):
 
 {THOROUGH_LOG}
 
 Every quick check was additionally run at VERIF_SEED = 2, 3, 5, 8, 13 and 21..28 on the repaired tree in background
-snapshots; the only alarm was the harness false alarm at seed 8 described in §6.4 (corrected).
+snapshots, and again at seeds 2, 3, 5 (8, 13 before the last two rounds) on the final code; the only alarms were the
+harness false alarm at seed 8 described in §6.4 and a harness error (exit 2) of C14 at seed 2 described in §6.3 (both
+corrected).
 """
 open(p, "w").write(s)
 print("section 8 regenerated")
